@@ -260,6 +260,10 @@ macro_rules! bad {
     };
 }
 
+fn all_props() -> BTreeSet<&'static str> {
+    ["C01", "C02", "C03", "C04", "C05", "C06", "C07", "C08", "C09", "C10", "C11", "C12", "C13", "MODEL"].into_iter().collect()
+}
+
 fn v(props: &[&'static str], msg: String) -> Viol {
     Viol { props: props.to_vec(), msg }
 }
@@ -863,6 +867,7 @@ fn run_seq(ops: &[Op], heartbeat: &Arc<Mutex<(String, Instant)>>, full_checks: b
     // C13: determinism, clone, clear
     let replay = catch_unwind(AssertUnwindSafe(|| {
         let mut t = Sut::new();
+        t.mask = all_props(); // a replay only repeats the calls: every oracle is off
         let mut r2 = BTreeSet::new();
         for op in ops {
             if t.apply(op, &mut r2).is_err() {
@@ -877,6 +882,8 @@ fn run_seq(ops: &[Op], heartbeat: &Arc<Mutex<(String, Instant)>>, full_checks: b
         }
         let roomy = catch_unwind(AssertUnwindSafe(|| {
             let mut t = Sut::new();
+            t.mask = all_props();
+        t.mask = all_props(); // a replay only repeats the calls: every oracle is off
             t.arena = Arena::with_capacity(64);
             t.arena.reserve(100);
             let mut r2 = BTreeSet::new();
@@ -902,6 +909,7 @@ fn run_seq(ops: &[Op], heartbeat: &Arc<Mutex<(String, Instant)>>, full_checks: b
         a1.clear();
         let run_cont = |arena: Arena<Tok>| -> (Arena<Tok>, Vec<NodeId>) {
             let mut u = Sut::new();
+            u.mask = all_props();
             u.arena = arena;
             let mut r3 = BTreeSet::new();
             for op in &cont {
